@@ -226,14 +226,89 @@ def _same_outcome(ctx, case, i, op, route, of, vf_, on, vn, FrozenInstanceError,
 BOUNDS = {"quick": dict(examples=350, units=16), "thorough": dict(examples=3500, units=16)}
 
 
+# ---------------------------------------------------------------------------
+# frozen "by inheritance" with two spec bases: whichever base is declared frozen, and in whichever order they are listed
+
+MB_OPS = ["set_a", "set_b", "set_c", "del_a", "with_a_inplace", "with_b_inplace", "update_inplace", "reset_inplace", "with_a", "with_c", "deepcopy"]
+
+
+def mb_cases():
+    for frozen_base in ("A", "B"):
+        for order in ("AB", "BA"):
+            for child in ("spec",):  # (an undecorated class over two spec bases only has the first base's metadata and constructor)
+                for eager in (True, False):
+                    for op in MB_OPS:
+                        yield {"multibase": {"frozen_base": frozen_base, "order": order, "child": child, "eager": eager}, "op": op}
+
+
+def run_multibase(ctx, case):
+    import copy as _copy
+
+    from spec_classes import spec_class
+    from spec_classes.errors import FrozenInstanceError
+
+    cfg, op = case["multibase"], case["op"]
+
+    def mk(name, attr, default, frozen):
+        opts = {"bootstrap": cfg["eager"]}
+        if frozen:
+            opts["frozen"] = True
+        return spec_class(**opts)(type(name, (), {"__annotations__": {attr: int}, attr: default, "__module__": "vf.generated"}))
+
+    A = mk("A", "a", 1, cfg["frozen_base"] == "A")
+    B = mk("B", "b", 2, cfg["frozen_base"] == "B")
+    bases = (A, B) if cfg["order"] == "AB" else (B, A)
+    ns = {"__module__": "vf.generated"}
+    if cfg["child"] == "spec":
+        ns.update({"__annotations__": {"c": int}, "c": 3})
+    C = type("C", bases, ns)
+    if cfg["child"] == "spec":
+        C = spec_class(bootstrap=cfg["eager"])(C)  # `frozen` not specified: inherited
+    obj = C()
+    before = dict(object.__getattribute__(obj, "__dict__"))
+    inplace = not op.startswith(("with_a", "with_c", "deepcopy")) or op.endswith("_inplace")
+    if op == "with_c" and cfg["child"] != "spec":
+        ctx.case(case, False)
+        return
+    try:
+        res = {
+            "set_a": lambda: setattr(obj, "a", 5), "set_b": lambda: setattr(obj, "b", 5), "set_c": lambda: setattr(obj, "c", 5),
+            "del_a": lambda: delattr(obj, "a"), "with_a_inplace": lambda: obj.with_a(6, _inplace=True), "with_b_inplace": lambda: obj.with_b(6, _inplace=True),
+            "update_inplace": lambda: obj.update(a=7, _inplace=True), "reset_inplace": lambda: obj.reset(_inplace=True),
+            "with_a": lambda: obj.with_a(8), "with_c": lambda: obj.with_c(8), "deepcopy": lambda: _copy.deepcopy(obj),
+        }[op]()
+        raised = None
+    except FrozenInstanceError as e:
+        res, raised = None, e
+    after = dict(object.__getattribute__(obj, "__dict__"))
+    if after != before:
+        ctx.fail(f"multibase|{op}|frozen_instance_changed", case, f"{op} on an instance of C{cfg['order']} (frozen base {cfg['frozen_base']}) changed it: {before} -> {after}")
+        return
+    if inplace and raised is None:
+        ctx.fail(f"multibase|{op}|not_refused", case, f"{op} on an instance of a class with a frozen spec base was not refused")
+        return
+    if not inplace:
+        if raised is not None or res is obj or not isinstance(res, C):
+            ctx.fail(f"multibase|{op}|copy_form_broken", case, f"{op}: raised {raised!r}, result {res!r}")
+            return
+    ctx.case(case, cfg["frozen_base"] != cfg["order"][0])
+
+
 def units(tier, seed):
-    return [["hyp", i] for i in range(BOUNDS[tier]["units"])]
+    return [["hyp", i] for i in range(BOUNDS[tier]["units"])] + [["multibase"]]
 
 
 def run_unit(ctx, unit):
     b = BOUNDS[ctx.tier]
+    if unit[0] == "multibase":
+        for case in mb_cases():
+            run_multibase(ctx, case)
+        ctx.count("multibase_completed")
+        return
     run_given(ctx, lambda case: run_case(ctx, case), {"case": case_strategy()}, b["examples"], ctx.seed * 1000 + unit[1])
 
 
 def replay(ctx, case):
+    if "multibase" in case:
+        return run_multibase(ctx, case)
     run_case(ctx, case)
